@@ -110,6 +110,9 @@ def run(ctx):
                 ctx.ob("E6.uses-all", "%s->%s" % (fk, s.callee[0]), need <= {__import__("re").split(r"[ .]", r)[0] for r in roots}, "verifier forwards every one of its inputs %s (forwarded: %s)" % (sorted(need), sorted(roots)), where=where(f, bb))
         ctx.ob("E5.chain.anchor", fk, n >= 1, "%d scheme verification call(s) in %s" % (n, fk), where=where(f))
     K.check_core_table(ctx, P, methods=("verify", "partial_verify", "multi_sig_verify", "sign", "partial_sign"))
+    # the same table without debug assertions: what is hashed must not depend on a statement inside `debug_assert!`
+    with ctx.prefixed("nodebug|"):
+        K.check_core_table(ctx, ctx.prog("blst", "nodebug"), methods=("verify", "partial_verify", "multi_sig_verify", "sign", "partial_sign"))
     K.check_hash_to_point_routing(ctx, P, rule="E5.chain.h2c")
     # relabelling a scheme must change the tag; decision must equal IETF CoreVerify: tag table
     check_tag_table(ctx, P)
@@ -133,6 +136,26 @@ def run(ctx):
                 root = F.projection_root(strip_sites(d).a[0]) if d.op == "discr" else None
                 who = root[0].a[1] if root else None
                 want = "sig" if f.key.startswith("PublicKeyShare") else "self"
+                if who is None:
+                    # a switch on a computed scheme value (`match sig.scheme() {..}`): it is the signature's own scheme
+                    # when fixing the signature's variant fixes the switched value, for every variant
+                    wroots = [(r, adt) for r, adt in SP.switch_roots(P, f) if r == (want, "")]
+                    if wroots:
+                        r0, adt0 = wroots[0]
+                        det = True
+                        for vv in P.adts[adt0]["variants"]:
+                            ea = evaluate(f, {r0: vv["name"]})
+                            da = ea.switch.get(b)
+                            if da is None:
+                                continue
+                            da = strip_sites(da)
+                            inner = da.a[0] if da.op == "discr" else da
+                            while inner.op in ("ref", "deref"):
+                                inner = inner.a[0]
+                            if not ((inner.op == "agg" and inner.a[0][0] == "adt" and not inner.a[1]) or inner.op == "const"):
+                                det = False
+                        if det:
+                            who = want
                 ctx.ob("E2.own-variant", f.key, who == want, "scheme dispatch switches on `%s` (must be the signature itself: `%s`)" % (who, want), where=where(f, b))
     # 5. pairing helpers: 1:1 pipeline
     for fk in ("helpers::pairing_g1_g2", "helpers::pairing_g2_g1"):
@@ -156,10 +179,10 @@ def _proj_or_checked(a):
             return rs[0][0].a[1] + " (payload of its variant)"
     # (Try::branch(Share::as_group_element(&proj)) as Continue).0
     t = a
-    if t.op == "field" and t.a[0].op == "downcast" and t.a[0].a[1] == "Continue":
+    if t.op == "field" and t.a[0].op == "downcast" and t.a[0].a[1] in ("Continue", "Ok"):
         br = t.a[0].a[0]
-        if br.op == "call" and B.cname(br) == "Try::branch":
-            inner = B.peel(br.a[1][0])
+        if br.op == "call" and B.cname(br) in ("Try::branch", "Share::as_group_element"):
+            inner = B.peel(br.a[1][0]) if B.cname(br) == "Try::branch" else br
             if inner.op == "call" and B.cname(inner) == "Share::as_group_element":
                 r = F.projection_root(inner.a[1][0])
                 if r:
